@@ -863,7 +863,22 @@ fn run_c04(seed: u64, n: usize, oracle_only: bool, out: &mut Out) {
                 3 => ("link @fold @transform(op: \"count\") @tag(name: \"t\")".to_string(), format!("id @filter(op: \"{op}\", value: [\"%t\"])")),
                 _ => ("name @tag(name: \"t\")".to_string(), format!("name @filter(op: \"{}\", value: [\"%t\"])", r2.pick(&["=", "!=", "has_prefix", "has_substring"]))),
             };
-            let text = format!("query {{ {root} {{ id @output(name: \"r\") {e1} @optional {{ {tagged} }} {e2} {{ {filtered} id @output(name: \"x\") }} }} }}");
+            let text = if r2.chance(1, 3) {
+                // two tag filters on ONE property, in either order of operator priority: the dynamic hint must
+                // pair each operator with its own tag
+                let ops = ["=", "!=", "<", "<=", ">", "one_of"];
+                let o1 = *r2.pick(&ops);
+                let o2 = *r2.pick(&ops);
+                let f = |o: &str, t: &str| if o == "one_of" { format!("@filter(op: \"one_of\", value: [\"%l{t}\"])") } else { format!("@filter(op: \"{o}\", value: [\"%{t}\"])") };
+                // declare exactly the tags that are used (an unused tag is a frontend error)
+                let d1 = if o1 == "one_of" { "nums @tag(name: \"lt1\")" } else { "id @tag(name: \"t1\")" };
+                let d2 = if o2 == "one_of" { "nums @tag(name: \"lt2\")" } else { "score @tag(name: \"t2\")" };
+                let in_root = o2 != "one_of" && r2.chance(1, 2);
+                let (d2_root, d2_opt) = if in_root { (d2.to_string(), "name @output(name: \"on\")".to_string()) } else { (String::new(), d2.to_string()) };
+                format!("query {{ {root} {{ name @output(name: \"r\") {d1} {d2_root} {e1} @optional {{ {d2_opt} }} {e2} {{ id {} {} @output(name: \"x\") }} }} }}", f(o1, "t1"), f(o2, "t2"))
+            } else {
+                format!("query {{ {root} {{ id @output(name: \"r\") {e1} @optional {{ {tagged} }} {e2} {{ {filtered} id @output(name: \"x\") }} }} }}")
+            };
             let indexed = match trustfall_core::frontend::parse(&schema, &text) {
                 Ok(ix) => ix,
                 Err(e) => {
